@@ -180,9 +180,9 @@ static void free_sources(elem *s, size_t n)
 	vf_xfree(s, n * sizeof(elem));
 }
 
-enum { OpSet, OpSetDefault, OpBufferSet, OpInsert, OpCut, OpTrunc, OpSlice, OpReserve, OpReserveOther, OpClone, OpDrop, OpReduce, OpCount };
+enum { OpSet, OpSetDefault, OpBufferSet, OpInsert, OpCut, OpTrunc, OpSlice, OpReserve, OpReserveOther, OpClone, OpDrop, OpReduce, OpRetype, OpCount };
 static const char *opn[OpCount] = { "array_set", "array_set_default", "buffer_set", "array_insert", "buffer_cut", "buffer_truncate",
-	"array_slice", "array_reserve", "array_reserve_other", "array_clone", "drop", "array_reduce" };
+	"array_slice", "array_reserve", "array_reserve_other", "array_clone", "drop", "array_reduce", "array_retype" };
 
 static size_t pick_cnt(vf_rng *r, size_t n)
 {
@@ -339,6 +339,30 @@ static void do_op(vf_rng *r, int op, int inject, char *desc, size_t dcap, size_t
 			drop(h);
 			adopt = 0;
 		}
+		break; }
+	case OpRetype: {
+		/* a buffer holding raw bytes (or elements of a type without finalizer) is re-typed to the
+		 * managed type: none of the old bytes may be counted as elements afterwards */
+		static const MPT_STRUCT(type_traits) plain16 = MPT_TYPETRAIT_INIT(sizeof(elem));
+		uint8_t junk[16 * 12];
+		size_t nb = sizeof(elem) * (1 + vf_below(r, 12));
+		drop(h);
+		memset(junk, 0x5a, sizeof(junk));
+		if (vf_chance(r, 1, 2)) {
+			vf_at("mpt_array_append");
+			if (!mpt_array_append(&arr[h], nb, junk)) vf_fail(key("raw-append-refused"), "%s", ctx);
+		} else {
+			vf_at("mpt_array_set");
+			if (!mpt_array_set(&arr[h], &plain16, nb, junk, 0)) vf_fail(key("plain-set-refused"), "%s", ctx);
+		}
+		if (vf_chance(r, 1, 3)) { drop(g == h ? (h + 1) % NH : g); mpt_array_clone(&arr[g == h ? (h + 1) % NH : g], &arr[h]); }
+		vf_at("mpt_array_reserve");
+		MPT_STRUCT(buffer) *b = mpt_array_reserve(&arr[h], nb + cnt * ES, &etraits);
+		if (arr[g == h ? (h + 1) % NH : g]._buf && arr[g == h ? (h + 1) % NH : g]._buf->_content_traits != &etraits) drop(g == h ? (h + 1) % NH : g);
+		if (!b) { drop(h); break; }
+		VF_CHECK(b->_content_traits == &etraits, key("type-not-set"), "%s: reserved buffer has another element type", ctx);
+		VF_CHECK(b->_used == 0, key("stale-bytes-counted-as-elements"), "%s: %zu bytes of the old raw content are counted as elements of the new type", ctx, b->_used);
+		sh[h].n = 0;
 		break; }
 	case OpClone: {
 		vf_at("mpt_array_clone");
